@@ -90,22 +90,24 @@ def edge_forces(edge, preds):
     (not / and / or / De Morgan forms, which branch is the else part)."""
     if edge.test is None:
         return False
+    for test in (edge.tests() if hasattr(edge, "tests") else [edge.test]):
+        if eval_with(test, lambda n: None) is not None:
+            continue       # constant test: the edge is either always or never taken and tells nothing about the facts
+        matched = []
 
-    if eval_with(edge.test, lambda n: None) is not None:
-        return False       # constant test: the edge is either always or never taken and tells nothing about the facts
-    matched = []
-
-    def assume(node):
-        for pr in preds:
-            if pr(node, True):
-                matched.append(node)
-                return False
-            if pr(node, False):
-                matched.append(node)
-                return True
-        return None
-    v = eval_with(edge.test, assume)
-    return bool(matched) and v is not None and v != edge.polarity
+        def assume(node):
+            for pr in preds:
+                if pr(node, True):
+                    matched.append(node)
+                    return False
+                if pr(node, False):
+                    matched.append(node)
+                    return True
+            return None
+        v = eval_with(test, assume)
+        if bool(matched) and v is not None and v != edge.polarity:
+            return True
+    return False
 
 
 def strip_not(test):
